@@ -1147,9 +1147,11 @@ func runCase(c *Case) {
 			continue // module processing stops at the first failing entry; so does the flat twin
 		}
 		if c.Ops[i].Kind == "cancel" && c.Ops[i].NoWait && i+1 < len(c.Ops) && (c.Ops[i+1].Kind == "closeprovider" || c.Ops[i+1].Kind == "close") {
-			if steps, ok := r.cancelThenClose(&c.Ops[i], &c.Ops[i+1]); ok {
-				kept = append(kept, c.Ops[i], c.Ops[i+1])
-				c.Trace = append(c.Trace, steps...)
+			if step, ok := r.cancelThenClose(&c.Ops[i], &c.Ops[i+1]); ok {
+				// for the model this is the owner's Close alone: everything the cancellation closes lies below the
+				// owner and is closed during - and reported by - that Close
+				kept = append(kept, c.Ops[i+1])
+				c.Trace = append(c.Trace, step)
 				skip = i + 1
 				continue
 			}
@@ -1187,19 +1189,15 @@ func runCase(c *Case) {
 // cancelThenClose: cancel a context and, while its watcher goroutines are closing their scopes, start the Close of an
 // ancestor or of the provider. Both operations become one step each, as in the sequential order; the Closed events
 // are attributed by owner: scopes below the cancelled context belong to the cancellation (the model closes them there).
-func (r *Run) cancelThenClose(cancel, next *Op) ([]Step, bool) {
+func (r *Run) cancelThenClose(cancel, next *Op) (Step, bool) {
 	rec := r.ctxs[cancel.Ctx]
 	pr := r.prov(next.P)
 	if rec == nil || pr == nil {
-		return nil, false
+		return Step{}, false
 	}
 	if next.Kind == "close" && (next.H <= 0 || next.H >= len(pr.scopes) || pr.scopes[next.H] == nil) {
-		return nil, false
+		return Step{}, false
 	}
-	r.mu.Lock()
-	start := len(r.events)
-	r.closeProv = pr
-	r.mu.Unlock()
 	// scopes closed by the cancellation: those deriving from the context, and everything below them
 	inSet := make([]bool, len(pr.scopes))
 	for h := 1; h < len(pr.scopes); h++ {
@@ -1207,6 +1205,37 @@ func (r *Run) cancelThenClose(cancel, next *Op) ([]Step, bool) {
 			inSet[h] = true
 		}
 	}
+	// all of them must lie below the owner that is about to be closed (always so for the provider)
+	if next.Kind == "close" {
+		for h := 1; h < len(pr.scopes); h++ {
+			if !inSet[h] {
+				continue
+			}
+			below := false
+			for k := h; k > 0 && k < len(pr.scopeParent); k = pr.scopeParent[k] {
+				if pr.scopeParent[k] == next.H {
+					below = true
+					break
+				}
+			}
+			if !below {
+				return Step{}, false
+			}
+		}
+	}
+	for _, other := range r.provs {
+		if other != pr {
+			for h := 1; h < len(other.scopes); h++ {
+				if other.scopeCtx[h] == cancel.Ctx {
+					return Step{}, false
+				}
+			}
+		}
+	}
+	r.mu.Lock()
+	start := len(r.events)
+	r.closeProv = pr
+	r.mu.Unlock()
 	rec.cancel()
 	// let a watcher get inside a Close body (if it has anything to close) before the owner's Close starts
 	deadline := time.Now().Add(20 * time.Millisecond)
@@ -1239,15 +1268,6 @@ func (r *Run) cancelThenClose(cancel, next *Op) ([]Step, bool) {
 	all := append([]Event(nil), r.events[start:]...)
 	r.closeProv = nil
 	r.mu.Unlock()
-	var evCancel, evNext []Event
-	for _, e := range all {
-		if e.Kind == "closed" && e.Owner > 0 && e.Owner < len(inSet) && inSet[e.Owner] {
-			evCancel = append(evCancel, e)
-		} else {
-			evNext = append(evNext, e)
-		}
-	}
-	cancel.Ord = r.closeOrder(evCancel)
-	next.Ord = r.closeOrder(evNext)
-	return []Step{{Events: evCancel, Result: Result{Kind: "unit"}}, {Events: evNext, Result: res}}, true
+	next.Ord = r.closeOrder(all)
+	return Step{Events: all, Result: res}, true
 }
